@@ -71,6 +71,7 @@ class Scheduler:
         self.driver = None
         self.deadlocked = False
         self.overrun = False
+        self.in_sched = False       # true while scheduler code runs (predicates may execute traced bromelia code)
 
     # ------------------------------------------------------------------ threads
     def register_driver(self, name="driver"):
@@ -113,7 +114,7 @@ class Scheduler:
         return None
 
     def _line(self, frame, event, arg):
-        if event == "line" and self.line_preempt and self.choice_i < len(self.choices) and not self.killing:
+        if event == "line" and self.line_preempt and not self.in_sched and self.choice_i < len(self.choices) and not self.killing:
             self.point("line", line=(frame.f_code.co_name, frame.f_lineno))
         return self._line
 
@@ -171,6 +172,15 @@ class Scheduler:
         cur = self.me()
         if self.killing and cur is not self.driver:
             raise Killed()
+        if self.in_sched:
+            raise HarnessError("re-entrant scheduling point")
+        self.in_sched = True
+        try:
+            return self._point(cur, kind, pred, timeout, line)
+        finally:
+            self.in_sched = False
+
+    def _point(self, cur, kind, pred, timeout, line):
         self.steps += 1
         cur.steps += 1
         self.now += EPS
@@ -191,8 +201,10 @@ class Scheduler:
         if nxt is cur:
             return cur.wake
         self.current = nxt
+        self.in_sched = False
         nxt.sem.release()
         cur.sem.acquire()
+        self.in_sched = True
         if self.killing and cur is not self.driver:
             raise Killed()
         return cur.wake
@@ -220,6 +232,7 @@ class Scheduler:
             return
         if self.current is not ct:
             return
+        self.in_sched = True
         try:
             nxt = self._pick(ct)
         except HarnessError:
@@ -227,6 +240,7 @@ class Scheduler:
             nxt.wake = "quiescent"
         self._resume_prepare(nxt)
         self.current = nxt
+        self.in_sched = False
         nxt.sem.release()
 
     # ------------------------------------------------------------------ driver helpers
@@ -270,6 +284,7 @@ class ShimLock:
         self._locked = False
         self._owner = None
         self.name = name
+        self.history = collections.deque(maxlen=16)
 
     def acquire(self, blocking=True, timeout=-1):
         s = self._s
@@ -280,15 +295,20 @@ class ShimLock:
         else:
             r = s.point("lock.acquire", pred=lambda: not self._locked, timeout=None if timeout is None or timeout < 0 else timeout)
             if r != "ok":
+                self.history.append(("acq-failed:" + str(r), s.current.name, s.steps))
                 return False
+        if self._locked:
+            raise HarnessError(f"lock granted while held: {list(self.history)[-6:]} log={list(s.log)[-6:]}")
         self._locked = True
         self._owner = s.current
+        self.history.append(("acq", s.current.name, s.steps))
         return True
 
     def release(self):
         self._s.point("lock.release")
+        self.history.append(("rel", self._s.current.name, self._s.steps))
         if not self._locked:
-            raise RuntimeError("release unlocked lock")
+            raise RuntimeError(f"release unlocked lock; history {list(self.history)[-8:]}")
         self._locked = False
         self._owner = None
 
